@@ -133,6 +133,17 @@ func MakeControllerRef(parent *unstructured.Unstructured) *metav1.OwnerReference
 	}
 }
 
+// withControllerRef returns refs with controllerRef added, unless a reference
+// to the same owner is already there.
+func withControllerRef(refs []metav1.OwnerReference, controllerRef *metav1.OwnerReference) []metav1.OwnerReference {
+	for _, ref := range refs {
+		if ref.UID == controllerRef.UID {
+			return refs
+		}
+	}
+	return append(refs, *controllerRef)
+}
+
 type ChildUpdateStrategy interface {
 	GetMethod(apiGroup, kind string) v1alpha1.ChildUpdateMethod
 }
@@ -237,6 +248,9 @@ func updateChildren(client *dynamicclientset.ResourceClient, updateStrategy Chil
 
 	for name, obj := range desired {
 		if ssaOptions.Strategy == ApplyStrategyServerSideApply {
+			// We always claim everything we create, also when it is created by applying.
+			obj.SetOwnerReferences(withControllerRef(obj.GetOwnerReferences(), MakeControllerRef(parent)))
+
 			data, err := json.Marshal(obj)
 			if err != nil {
 				errs = append(errs, err)
